@@ -35,7 +35,7 @@ func e15Case(seed uint64, kind string, k int, v int) Case {
 			u.mutate(rng, srv)
 		}
 		lk := map[string]kit.ListFaultKind{"list-error": kit.ListErr, "non-list": kit.ListNonList, "non-objects": kit.ListNonObjects,
-			"no-accessor": kit.ListNoAccessor, "nil-nil": kit.ListNilNil}[kind]
+			"no-accessor": kit.ListNoAccessor, "nil-nil": kit.ListNilNil, "status-object": kit.ListStatus, "error-with-empty-list": kit.ListErrAndList}[kind]
 		lat := []time.Duration{0, P / 3, 2 * P}[rng.Intn(3)]
 		srv.ListPlan = func(i int) kit.ListFault {
 			if i == k && kind != "close" && kind != "cancel" {
@@ -122,7 +122,7 @@ func e15Case(seed uint64, kind string, k int, v int) Case {
 				r.V("C14", "failure-not-reported", "failure %s at list #%d: Done() closed but Error() is nil", kind, k)
 			} else if errors.Is(e, lifecycle.ErrRunning) {
 				r.V("C14", "failure-not-reported", "failure %s at list #%d: Done() closed but Error() says still running", kind, k)
-			} else if kind == "list-error" && !errors.Is(e, kit.ErrInjected) {
+			} else if (kind == "list-error" || kind == "error-with-empty-list") && !errors.Is(e, kit.ErrInjected) {
 				r.V("C14", "cause-lost", "failure %s at list #%d: Error() = %v does not carry the client's error", kind, k, e)
 			}
 		}
@@ -162,7 +162,7 @@ func init() {
 	register("E15", func(tier string, seed uint64) []Case {
 		var cases []Case
 		nv := tierPick(tier, 3, 150)
-		for _, kind := range []string{"list-error", "non-list", "non-objects", "no-accessor", "nil-nil", "close", "cancel"} {
+		for _, kind := range []string{"list-error", "non-list", "non-objects", "no-accessor", "nil-nil", "status-object", "error-with-empty-list", "close", "cancel"} {
 			for k := 1; k <= 4; k++ {
 				for v := 0; v < nv; v++ {
 					cases = append(cases, e15Case(seed, kind, k, v))
